@@ -332,6 +332,58 @@ def batch_axis_tuples(ctx):
     ctx.note_batch("axis-tuples-vs-numpy", cases, dis, exhaustive=False, **stats)
 
 
+def batch_degenerate_shortcuts(ctx):
+    """API calls that have NOTHING TO DO (roll by 0, concatenate / stack of one array, pad by 0, reshape to the same
+    shape, x[...] / x[:], squeeze / expand_dims / sum with an empty axis tuple, broadcast_to the same shape) combined
+    with EVERY invalid value of their other arguments: must be rejected exactly like the non-degenerate call"""
+    import pytato as pt
+    stats = {"both_accept": 0, "both_reject": 0, "pytato_rejects_numpy_accepts": 0,
+             "pytato_accepts_numpy_rejects": 0}
+    cases = dis = 0
+    for s in [(), (2,), (2, 3), (1, 2), (0, 2), (2, 1, 3)]:
+        nd = len(s)
+        a = np.zeros(s)
+        x = pt.make_placeholder("x", s, np.float64)
+        calls = []
+        for ax in list(range(-nd - 2, nd + 3)) + [None]:
+            for shift in (0, -0, 1):
+                calls.append((f"roll:{s}:shift={shift}:axis={ax}", lambda shift=shift, ax=ax: pt.roll(x, shift, ax),
+                              lambda shift=shift, ax=ax: np.roll(a, shift, ax)))
+            if ax is None:
+                continue
+            calls.append((f"concatenate1:{s}:axis={ax}", lambda ax=ax: pt.concatenate([x], ax), lambda ax=ax: np.concatenate([a], ax)))
+            calls.append((f"stack1:{s}:axis={ax}", lambda ax=ax: pt.stack([x], ax), lambda ax=ax: np.stack([a], ax)))
+            calls.append((f"sum:{s}:axis={ax}", lambda ax=ax: pt.sum(x, axis=ax), lambda ax=ax: np.sum(a, axis=ax)))
+        # (not drawn: NEGATIVE pad widths -- FINDING, reported: pt.pad accepts them and builds an array with a
+        #  shrunken or even negative shape, pad((0, 2) array, ((0, -1), (0, -1))).shape == (-1, 1); NumPy raises
+        #  ValueError -- and the empty pad_width () on a 0-d array, which NumPy refuses for its float dtype)
+        for pw in [0, (0, 0), ((0, 0),) * nd, ((0, 0),) * (nd + 1), ((0, 0),) * max(nd - 1, 0) + ((0,),),
+                   (0, 0, 0), ((0, 0, 0),) * nd]:
+            if pw == ():
+                continue
+            calls.append((f"pad:{s}:{pw}", lambda pw=pw: pt.pad(x, pw), lambda pw=pw: np.pad(a, pw)))
+        calls.append((f"pad:{s}:0:mode=bogus", lambda: pt.pad(x, 0, mode="bogus"), lambda: np.pad(a, 0, mode="bogus")))
+        for new in [s, s + (1,), (-1,) + s[1:] if nd else (-1,), s[:-1] if nd else (2,)]:
+            for order in ("C", "F", "Z"):
+                calls.append((f"reshape:{s}:{new}:{order}", lambda new=new, order=order: pt.reshape(x, new, order=order),
+                              lambda new=new, order=order: np.reshape(a, new, order=order)))
+        for ix in [(Ellipsis,), (slice(None),) * nd, (slice(None),) * (nd + 1), (Ellipsis, Ellipsis), (Ellipsis,) + (slice(None),) * nd,
+                   (Ellipsis,) + (slice(None),) * (nd + 1), (slice(None, None, 0),) * max(nd, 1), (Ellipsis, 0) if nd == 0 else (Ellipsis, s[-1])]:
+            calls.append((f"index:{s}:{ix}", lambda ix=ix: x[ix], lambda ix=ix: a[ix]))
+        for t in [(), (nd,), (-nd - 1,), (nd + 1,)]:
+            calls.append((f"squeeze:{s}:axes={t}", lambda t=t: pt.squeeze(x, axis=t), lambda t=t: np.squeeze(a, axis=t)))
+            calls.append((f"expand_dims:{s}:axes={t}", lambda t=t: pt.expand_dims(x, t), lambda t=t: np.expand_dims(a, t)))
+            calls.append((f"sum:{s}:axes={t}", lambda t=t: pt.sum(x, axis=t), lambda t=t: np.sum(a, axis=t)))
+        for tgt in [s, s[1:] if nd else (1,), (2,) + s, s + (2,), tuple(d + 1 for d in s) if nd else (0,)]:
+            calls.append((f"broadcast_to:{s}:{tgt}", lambda tgt=tgt: pt.broadcast_to(x, tgt), lambda tgt=tgt: np.broadcast_to(a, tgt)))
+        for perm in [tuple(range(nd)), tuple(range(nd)) + (nd,), tuple(range(nd))[:-1] if nd else (0,), (0,) * nd if nd > 1 else (1,)]:
+            calls.append((f"transpose:{s}:{perm}", lambda perm=perm: pt.transpose(x, perm), lambda perm=perm: np.transpose(a, perm)))
+        for label, fpt, fnp in calls:
+            cases += 1
+            dis += _cmp(ctx, label, fpt, fnp, stats)
+    ctx.note_batch("degenerate-shortcuts-with-invalid-arguments", cases, dis, exhaustive=False, **stats)
+
+
 def batch_slices(ctx):
     """every 1-d slice: the NormalizedSlice pytato stores and the axis length it infers vs the Lean model
     (`ptNormSlice`, proved equal to CPython's slice adjustment in PtProofs/SliceLemmas) and vs NumPy"""
@@ -460,6 +512,7 @@ def run(ctx: common.Ctx):
     ctx.lean_obligations("PtProofs.SliceLemmas", THEOREMS_SLICE)
     batch_broadcast(ctx)
     batch_validation(ctx)
+    batch_degenerate_shortcuts(ctx)
     batch_axis_tuples(ctx)
     batch_dtype_nary(ctx)
     batch_slices(ctx)
